@@ -428,3 +428,40 @@ fn c12_roundtrip_vec_vec_u8() {
     );
     forget(v);
 }
+
+
+// ------------------------------------------------------------------------- allocation bound
+/// Decoding any byte string never requests more than a fixed multiple of the input size in one
+/// allocation: no allocation is driven by a length field that has not been checked against the input.
+/// (Model checker: `Vec::with_capacity` requests are recorded by a stub; native replay: a tracking
+/// global allocator. Limit: 8 x input + 256 bytes.)
+fn alloc_bound_case<T: MlsDecode, const B: usize>() {
+    let buf: [u8; B] = crate::util::any_bytes::<B>();
+    let len: usize = kani::any();
+    kani::assume(len <= B);
+    let mut rd: &[u8] = &buf[..len];
+    crate::alloc_track::reset();
+    let r = T::mls_decode(&mut rd);
+    let largest = crate::alloc_track::largest();
+    assert!(largest <= 8 * B + 256, "a single allocation request exceeds a fixed multiple of the input size");
+    match r {
+        Ok(v) => forget(v),
+        Err(e) => forget(e),
+    }
+    kani::cover!(true);
+}
+
+macro_rules! alloc_bound {
+    ($name:ident, $ty:ty, $b:expr, $unwind:expr) => {
+        #[kani::proof]
+        #[kani::unwind($unwind)]
+        #[kani::stub(alloc::vec::Vec::with_capacity, crate::alloc_track::vec_with_capacity_tracked)]
+        fn $name() {
+            alloc_bound_case::<$ty, $b>();
+        }
+    };
+}
+alloc_bound!(c12_alloc_bound_byte_vec, ByteVec, 5, 8);
+alloc_bound!(c12_alloc_bound_vec_u8, Vec<u8>, 5, 8);
+alloc_bound!(c12_alloc_bound_vec_u16, Vec<u16>, 5, 8);
+alloc_bound!(c12_alloc_bound_string, String, 5, 8);
